@@ -171,6 +171,83 @@ theorem joint_histories (cfg : Feeflow.Cfg) (s : Feeflow.St) (hI : Inv s.d) (ops
   have hI' := reach_inv cfg.d dops s.d hI
   exact ⟨fun e he hne => ledgerClause_of_ok (hI'.ledger e he) hne, hI'.outside, hI'.holds⟩
 
+/-! ### re-entrancy: a hostile registered pair / vault nests a message into the fee pipeline
+
+  `Feeflow.Op.reenter trig caught hacc inner outer` (see `WW/Model/Feeflow.lean`): the hostile contract, called by the
+  collector (`CollectProtocolFees`) or by the router on the collector's behalf (`Swap`), sends ANY operation `inner`
+  of the joint machine once — `NewEpoch`, `Claim`, `ForwardFees`, `CollectFees`, `AggregateFees`, bonding, an
+  owner-only message — plainly or as a caught sub-message.  `joint_histories` above quantifies over these
+  operations too (they are part of `Feeflow.Op`); the theorems below say what the guard is. -/
+
+/-- **reentrant_transaction_keeps_ledgers** — ONE transaction with a nested message, from any state whose ledgers
+    balance: every epoch ledger still balances per asset, epochs outside the grace window stay empty, the balance
+    covers what is available (the transaction acts on the ledger as a history of the distributor's own operations:
+    `Feeflow.step_projects`). -/
+theorem reentrant_transaction_keeps_ledgers (cfg : Feeflow.Cfg) (s s' : Feeflow.St) (hI : Inv s.d)
+    (trig : Feeflow.Trig) (caught : Bool) (hacc : Nat → Nat → Nat → List (Nat × Nat × Nat)) (inner outer : Feeflow.Op)
+    (h : Feeflow.step cfg s (.reenter trig caught hacc inner outer) = .ok s') :
+    (∀ e ∈ s'.d.epochs, e.avail ≠ [] → ∀ a, LedgerClause e a) ∧
+    (∀ e ∈ s'.d.epochs.drop s'.d.grace, e.avail = []) ∧
+    (∀ a, sumAvail a s'.d.epochs ≤ s'.d.bal a) := by
+  obtain ⟨dops, hd⟩ := Feeflow.step_projects h
+  rw [hd]
+  have hI' := reach_inv cfg.d dops s.d hI
+  exact ⟨fun e he hne => ledgerClause_of_ok (hI'.ledger e he) hne, hI'.outside, hI'.holds⟩
+
+/-- **nested_new_epoch_refused** — a `NewEpoch` entered again from inside the fee pipeline of a `NewEpoch` in flight
+    never goes through: if the hostile contract's message contains a `NewEpoch` (`clears`) and the outer `NewEpoch`
+    succeeds, then that message did NOT succeed (`fired ≠ 1`: the hostile contract was not reached, or its message
+    was refused and caught).  The guard is the collector's `TMP_EPOCH`: the nested run's reply consumes it, the
+    outer reply then fails with `CannotReadEpoch` and the whole transaction — the nested epoch included — reverts. -/
+theorem nested_new_epoch_refused (cfg : Feeflow.Cfg) (hk : Feeflow.Hook) (s : Feeflow.St) (now : Nat)
+    (router : Nat → Nat → Nat → Nat) (h : Feeflow.HS) (hc : hk.clears = true)
+    (e : Feeflow.newEpochH cfg hk s now router = .ok h) : h.fired ≠ 1 := by
+  have hfp : Feeflow.FirePres hk (fun _ t f => f = 1 → t = none) := by
+    refine Feeflow.fire_pres_of_run (fun s1 s2 t f _ _ _ => ?_) (fun _ _ _ _ h2 => by cases h2)
+    rw [if_pos hc]
+  obtain ⟨id, start, h4, _, hq, hr⟩ := Feeflow.pipelineH_pres hfp e
+  have q4 := hq (fun h0 => by cases h0)
+  obtain ⟨id', start', inflow, htmp, _⟩ := Feeflow.replyH_spec hr
+  have hf : h.fired = h4.fired := by
+    unfold Feeflow.replyH at hr
+    rw [htmp] at hr
+    simp only at hr
+    split at hr
+    · split at hr
+      · injection hr with hr; subst hr; rfl
+      · cases hr
+      · cases hr
+    · cases hr
+  intro h1
+  rw [hf] at h1
+  rw [q4 h1] at htmp
+  cases htmp
+
+/-- the same on the joint machine: whatever the trigger and the mode, the transaction `NewEpoch ⟵ NewEpoch` either
+    fails or is one in which the nested `NewEpoch` did not go through -/
+theorem nested_new_epoch_refused_joint (cfg : Feeflow.Cfg) (s : Feeflow.St) (trig : Feeflow.Trig) (caught : Bool)
+    (hacc : Nat → Nat → Nat → List (Nat × Nat × Nat)) (inner : Feeflow.Op) (hin : Feeflow.hasNewEpoch inner = true)
+    (now : Nat) (router : Nat → Nat → Nat → Nat) (acc : Nat → Nat → Nat) (h : Feeflow.HS)
+    (e : Feeflow.stepH cfg { trig := trig, caught := caught, clears := Feeflow.hasNewEpoch inner, run := (fun s1 => Feeflow.step cfg s1 inner), hacc := hacc } s (.newEpoch now router acc) = some (.ok h)) :
+    h.fired ≠ 1 := by
+  simp only [Feeflow.stepH, Option.some.injEq] at e
+  exact nested_new_epoch_refused cfg _ s now router h hin e
+
+/-- **refused_nested_call_leaves_no_trace** — a nested message that the real code refuses (`run` = `Err`): caught by
+    the hostile contract, the joint state, `TMP_EPOCH` and the outer operation's swaps are exactly what they were
+    (only the flags say that the attempt was made); not caught, the whole transaction fails. -/
+theorem refused_nested_call_leaves_no_trace (hk : Feeflow.Hook) (h : Feeflow.HS) (ha : h.armed = true)
+    (hr : hk.run h.s = .err) :
+    (hk.caught = true → Feeflow.fire hk h = .ok { h with armed := false, fired := 2 }) ∧
+    (hk.caught = false → Feeflow.fire hk h = .err) := by
+  constructor
+  · intro hc; unfold Feeflow.fire; rw [if_pos ha, hr]; simp only; rw [if_pos hc]
+  · intro hc; unfold Feeflow.fire; rw [if_pos ha, hr]; simp only; rw [if_neg (by rw [hc]; decide)]
+
+/-- the hostile contract sends its message ONCE: afterwards the hook is the identity -/
+theorem hostile_fires_once (hk : Feeflow.Hook) (h : Feeflow.HS) (ha : h.armed = false) : Feeflow.fire hk h = .ok h := by
+  unfold Feeflow.fire; rw [if_neg (by rw [ha]; decide)]
+
 /-- **payout_eq_ledger_delta** — a successful claim pays, in EVERY asset, exactly what the ledgers move: the
     sum of `available` falls by the payout, the sum of `claimed` rises by the payout (multi-asset epochs
     included), the contract balance falls by it, each asset is paid with one message, and no epoch is added,
